@@ -144,7 +144,7 @@ def check_set(ev, want, T):
     bad = conforms(got, T)
     if bad and bad[0] == "not-a-set": return bad
     if canon(got) != want:
-        return ("elements", f"= {show(got)}, expected the {len(want[1])} element(s) {show(want)}")
+        return ("value", f"= {show(got)}, expected the {len(want[1])} element(s) {show(want)}")
     if bad: return bad
     if got[3] and ev.get("k") != "{" + got[1] + "}:" + str(len(got[3])):
         return ("kind-string", f"has kind {ev.get('k')} but declares element kind {got[1]} and holds {len(got[3])} element(s)")
@@ -194,44 +194,48 @@ class Session:
     def add(self, text, check): self.stmts.append(text); self.checks.append(check)
 
 def build(cs, n):
+    """operand forms: a set operand is a variable (A := {..}), a mutable variable (aspect mutable) or the literal itself; an element
+    operand is a literal, or a variable (aspect mutable: both mutable variables; aspect elem-var: variable element next to a LITERAL
+    set; otherwise, every third case, both immutable variables).  Which form a case gets depends only on its position n."""
     s = Session(cs, n)
     fn, asp, k, k2, a, b, e = cs["fn"], cs["asp"], cs["kind"], cs["k2"], cs["a"], cs["b"], cs["e"]
-    base = asp.split(":")[0]
-    cross = base == "cross-kind"
-    mut = base == "mutable"
-    inline = (not mut) and (base == "literal" or (n % 3 == 2 and base != "member"))
-    binary = fn in ("cartesian-product", "disjoint", "equals", "not-equals", "complement", "proper-subset", "proper-superset") \
-        or (fn == "powerset" and base == "member")
+    cross = asp == "cross-kind"
+    mut = asp == "mutable"
+    elemvar = asp == "elem-var"
+    binary = fn in ("cartesian-product", "disjoint", "equals", "not-equals", "complement", "proper-subset", "proper-superset")
+    form = n % 3
+    inlineA = elemvar or asp == "literal" or (not mut and form == 2)
+    inlineB = (not mut and form >= 1) or (fn == "powerset" and asp == "member")     # B ∈ P(A): B always a literal (a variable element is aspect elem-var)
     til = "~" if mut else ""
     defined = []
-    def operand(name, kk, seq, ids):
+    def operand(name, kk, seq, ids, inline):
         if inline: return s.setlit(kk, seq)
         s.add(f"{til}{name} := {s.setlit(kk, seq)}", ('operand', name, ids, kk)); defined.append((name, ids, kk))
         return name
-    A = operand("A", k, a, cs["A"])
-    B = operand("B", k2, b, cs["B"]) if binary else None
+    A = operand("A", k, a, cs["A"], inlineA)
+    B = operand("B", k2, b, cs["B"], inlineB) if (binary or (fn == "powerset" and asp == "member")) else None
     def elem(kk, i):
-        if mut:
-            s.add(f"~x := {s.lit(kk, i)}", ('setup',)); return "x"
+        if mut or elemvar or (form == 1 and not inlineA):
+            s.add(f"{til}x := {s.lit(kk, i)}", ('setup',)); return "x"
         return s.lit(kk, i)
     W = WORDS.get(fn)
     final = []
     if fn == "powerset":
-        if base in ("value", "mutable"): final = [f"{W}({A})"]
-        elif base == "size": final = [f"set/size({W}({A}))"]
-        elif base == "twice":
+        if asp in ("value", "mutable"): final = [f"{W}({A})"]
+        elif asp == "size": final = [f"set/size({W}({A}))"]
+        elif asp == "twice":
             if n % 2: s.add(f"P := {W}({A})", ('setup',)); final = [f"{W}(P)"]
             else: final = [f"{W}({W}({A}))"]
-        elif base == "member":
+        elif asp == "member":
             if n % 2: s.add(f"P := {W}({A})", ('setup',)); final = [f"{B} ∈ P"]
             else: final = [f"set/element-of({B}, {W}({A}))"]
     elif fn == "size":
         final = [f"{W}({A})"]
     elif fn in ("insert", "remove"):
         other = WORDS["remove" if fn == "insert" else "insert"]
-        if base in ("value", "mutable"): final = [f"{W}({A}, {elem(k, e)})"]
+        if asp in ("value", "mutable", "elem-var"): final = [f"{W}({A}, {elem(k, e)})"]
         elif cross: final = [f"{W}({A}, {s.lit(k2, e)})"]
-        elif base == "fold":
+        elif asp == "fold":
             t = A
             for i in b: t = f"{W}({t}, {s.lit(k, i)})"
             final = [t]
@@ -239,19 +243,20 @@ def build(cs, n):
             first = f"{W}({A}, {s.lit(k, e)})"
             if n % 2: s.add(f"C := {first}", ('setup',)); first = "C"
             e2 = s.lit(k, e)
-            if base == "idempotent": final = [f"{W}({first}, {e2})"]
-            elif base == "size": final = [f"set/size({first})"]
-            elif base in ("then-remove", "then-insert"): final = [f"{other}({first}, {e2})"]
-            elif base == "member": final = [f"{e2} ∈ {first}" if n % 4 < 2 else f"set/element-of({e2}, {first})"]
-    elif fn == "not-element-of":
-        el = s.lit(k2 if cross else k, e)
-        if base == "word" or (cross and n % 2): final = [f"{W}({el}, {A})"]
-        else: final = [f"{el} ∉ {A}"]
+            if asp == "idempotent": final = [f"{W}({first}, {e2})"]
+            elif asp == "size": final = [f"set/size({first})"]
+            elif asp in ("then-remove", "then-insert"): final = [f"{other}({first}, {e2})"]
+            elif asp == "member": final = [f"{e2} ∈ {first}" if n % 4 < 2 else f"set/element-of({e2}, {first})"]
+    elif fn in ("not-element-of", "element-of"):
+        el = s.lit(k2, e) if cross else elem(k, e)
+        sym = "∉" if fn == "not-element-of" else "∈"
+        if asp == "word" or (asp in ("cross-kind", "elem-var") and n % 2): final = [f"{W}({el}, {A})"]
+        else: final = [f"{el} {sym} {A}"]
     elif fn == "cartesian-product":
-        if base in ("value", "mutable") or cross: final = [f"{W}({A}, {B})"]
-        elif base == "size": final = [f"set/size({W}({A}, {B}))"]
-        elif base == "nested": final = [f"{W}({W}({A}, {B}), {A})"]
-        elif base == "member":
+        if asp in ("value", "mutable") or cross: final = [f"{W}({A}, {B})"]
+        elif asp == "size": final = [f"set/size({W}({A}, {B}))"]
+        elif asp == "nested": final = [f"{W}({W}({A}, {B}), {A})"]
+        elif asp == "member":
             s.add(f"P := {W}({A}, {B})", ('setup',))
             u = cs["u"]
             for x in range(1, u + 1):
@@ -261,10 +266,10 @@ def build(cs, n):
     elif fn in ("disjoint", "not-equals", "complement"):
         final = [f"{W}({A}, {B})"]
     elif fn == "equals":
-        final = [f"{W}(set/powerset({A}), set/powerset({B}))"] if base == "of-powersets" else [f"{W}({A}, {B})"]
+        final = [f"{W}(set/powerset({A}), set/powerset({B}))"] if asp == "of-powersets" else [f"{W}({A}, {B})"]
     elif fn in SYMBOL:
-        if base == "word": final = [f"{W}({A}, {B})"]
-        else: final = [f"{A} {SYMBOL[fn][0 if base == 'symbol' else 1]} {B}"]
+        if asp == "word": final = [f"{W}({A}, {B})"]
+        else: final = [f"{A} {SYMBOL[fn][0 if asp == 'symbol' else 1]} {B}"]
     if not final: raise ValueError((fn, asp))
     for j, t in enumerate(final): s.add(t, ('final', j))
     for name, ids, kk in defined: s.add(name, ('pure', name, ids, kk))
@@ -323,7 +328,7 @@ def judge(rep, s, resp, oc, tally):
             if T is None:        # heterogeneous expectation (cross-kind insert): elements only
                 got = absval.absval(ev["v"])
                 if got[0] != 'set': fail("not-a-set", f"= {show(got)}", j)
-                elif canon(got) != want: fail("elements", f"= {show(got)}, expected the elements {show(want)}", j)
+                elif canon(got) != want: fail("value", f"= {show(got)}, expected the elements {show(want)}", j)
                 elif got[2] != len(got[3]): fail("size", f"reports size {got[2]} but holds {len(got[3])}", j)
                 else: tally["free"] += 1; tally["free_accepted"] += 1
                 continue
@@ -412,7 +417,7 @@ def run(rep, tier, seed):
                      "observed": [(x.get("r"), x.get("k")) for x in (o[0] or {}).get("steps", [])] if o[1] == "ok" else o[1]}
                     for s, o in list(zip(built, outs))[::step]]
         if not quick: log(f"  .. {nsess}/{len(cases)} sessions")
-    byfn = collections.Counter(f"{c['fn']}/{c['asp'].split(':')[0]}" for c in cases)
+    byfn = collections.Counter(f"{c['fn']}/{c['asp']}" for c in cases)
     bykind = collections.Counter(c["kind"] for c in cases)
     exps = collections.Counter(c["exp"] for c in cases)
     rep.cov.update({"states": t.generated, "transitions": max(t.generated - 1, 1), "distinct_states": t.distinct,
